@@ -162,7 +162,7 @@ add("F55", ["C04"], "C04.assign-protocol|kind|RecordExpr", "`let r = {a = x = 1.
 add("F56", ["C03"], "C03.error-drop|drop|compiler::typing::unification|collect|x1", "element-wise tuple unification collects the element errors and answers Ok when the remaining relations are consistent: `fn f(a:float, b:(float)->float){ b(a) }  fn dsp(){ f(1.0, 2.0) }` passes the type checker; the VM panics `Invalid indirect callable`, WASM traps `indirect call type mismatch` (findings/repro/F56_tuple_unify_drops_errors.mmm; _b: a number passed for a tuple gives an invalid WASM module). Returning the errors makes 6 existing tests fail: the suite pins the number of diagnostics of many_errors.mmm at 10, and the `str + 2.0` in that file is itself an instance of the defect (an 11th, correct, diagnostic appears); fixtures with default-valued record parameters rely on the leniency too. So it is recorded, not repaired")
 
 # ---- invented binder names (C16.invented-names) ----------------------------------------------------------------
-add("F65", ["C16"], "C16.invented-names|binder|feed_id{}", "`fn dsp(){ let feed_id0 = 5.0  self * 0.5 + feed_id0 }` gives 7.5, 7.5, 7.5 where the same program with the variable called `k` gives 5, 7.5, 8.75: convert_self binds the feedback variable of `self` under the spellable name feed_id<N>, which captures the user's variable (findings/repro/F65_*.mmm). Not repaired: the repository's unit test convert_pronoun::test pins the spelling `feed_id0`")
+add("F65", ["C16", "C10"], "C16.invented-names|binder|feed_id{}", "`fn dsp(){ let feed_id0 = 5.0  self * 0.5 + feed_id0 }` gives 7.5, 7.5, 7.5 where the same program with the variable called `k` gives 5, 7.5, 8.75: convert_self binds the feedback variable of `self` under the spellable name feed_id<N>, which captures the user's variable (findings/repro/F65_*.mmm). Not repaired: the repository's unit test convert_pronoun::test pins the spelling `feed_id0`")
 fixed("F66", "C16", "2dc402d", "C16.lookahead-nesting|depth|Parser::<'a>::is_tuple_expr", "`let r = ({a = 1.0, b = 2.0})  r.a + r.b` and `let f = (|x, y| x + y)`: is_tuple_expr looked for a comma at parenthesis depth 0 and counted only parentheses, so the comma of the record / of the lambda parameters made the parenthesised expression a one-element tuple; mirgen panicked (`expected record type for field access`, `non function type`); findings/repro/F66_*.mmm")
 fixed("F66", "C16", "2dc402d", "C16.lookahead-nesting|depth|Parser::<'a>::parse_type_tuple_or_paren::{closure#0}", "same scan for types: `(x: ({a:float, b:float}))`")
 fixed("F67", "C16", "3dc550a", "C16.block-scope|block|MIR-generator", "`let x = 1.0  let y = { let x = 2.0  x }  x + y` gave 4.0 on both back ends (3.0 with the inner binder renamed to z): the type checker opens a scope for a block, the MIR generator evaluated the body in the enclosing environment, so the inner `let` replaced the outer binding for the rest of the function (findings/repro/F67_*.mmm)")
@@ -203,6 +203,10 @@ fixed("F79", "C03", "d8514e8", "C05.scratch|function-scoped|alloc_ptr_save_local
 # ---- F80 (mentioned by a seeding agent as a pristine oddity; C18.verbatim derives it)
 fixed("F80", "C18", "f6bed1a", "C18.verbatim|replace|rewrite_infallible_generated_line|?", "`fn dsp(){ let s = \"what? memory.wav\"  1.0 }`: the Rust generator rewrote `?` to `.unwrap()` and `memory.` to `self.memory.` in every finished line of an infallible function, also inside the string literal of the program written into that line: the transpiled program allocates the string \"what.unwrap() self.memory.wav\" (findings/repro/F80_rust_string_literal/)")
 fixed("F80", "C18", "f6bed1a", "C18.verbatim|replace|rewrite_infallible_generated_line|memory.", "same defect, second pattern (`memory.`)")
+
+
+# ---- F81 (reported by a round-7 seeding agent as a capture that already exists on the pinned tree; the rule had listed the name as an audited exception "no failing input")
+add("F81", ["C16", "C10"], "C16.invented-names|binder|__lambda_arg_{}", "`3.0 ||> mix(_, twice!(inc(_))(1.0))` gives 34.0 on both back ends where the same program with the inner partial application written by hand (`twice!(|inner| `{ inc($inner) })`) gives 33.0: the parameter of a `_` lambda is named after the argument position (`__lambda_arg_1` for both holes here) and the inlining of `||>` substitutes by name, so the piped 3.0 also fills the hole of the inner lambda (findings/repro/F81_placeholder_capture.mmm). Not repaired: the spelling is pinned by the unit test convert_pronoun::test::test_placeholder_converts_to_macro_lambda")
 
 
 def main():
